@@ -276,7 +276,42 @@ func (c *Ctx) mapMutsDepth(gf *graphFields, f *ssa.Function, depth int) []mapMut
 					m.env = env
 				}
 				if !postDominatesEntry(cal, loopHeaderOrSelf(m.block)) {
-					m.conditional = true
+					// an early return taken only when the key is not in the very table the mutation is about
+					// (`peers, ok := own[h]; if !ok { return }` before `delete(own, h)` and the loop over own[h]) skips
+					// nothing: without the entry the deletion and the neighbour loop do nothing
+					harmless := func(r *ssa.Return) bool {
+						for _, l := range core.Lits(core.Guards(r.Block())) {
+							lk, pol, ok := core.MemberLit(l)
+							if !ok || pol {
+								continue
+							}
+							ref := c.classifyMap(gf, lk.X)
+							if ref.level != "outer" {
+								continue
+							}
+							k := core.Path(lk.Index)
+							if m.del && m.ref.level == "outer" && m.ref.field == ref.field && m.key == k {
+								return true
+							}
+							if m.del && m.rangeSrc != nil && m.rangeSrc.level == "inner" && m.rangeSrc.field == ref.field && m.rangeSrc.key == k {
+								return true
+							}
+						}
+						return false
+					}
+					hb := loopHeaderOrSelf(m.block)
+					allHarmless := true
+					for _, r := range core.Returns(cal) {
+						if r.Block() == hb {
+							continue
+						}
+						if core.ReachableAvoiding(cal.Blocks[0], r.Block(), map[*ssa.BasicBlock]bool{hb: true}) && cal.Blocks[0] != hb && !harmless(r) {
+							allHarmless = false
+						}
+					}
+					if !allHarmless {
+						m.conditional = true
+					}
 				}
 				m.in = in
 				m.block = in.Block()
@@ -359,6 +394,29 @@ func runMirror(c *Ctx) {
 		}
 		name := core.FuncName(f)
 		c.R.Func(name)
+		// an operation that makes the tables on first use does so before it writes any of them (a write to a table of
+		// the zero Graph is a write to a nil map)
+		if initM := p.Method(p.Graph, "Graph", "init"); initM != nil && f != initM {
+			var initCall ssa.Instruction
+			for _, ci := range core.Calls(f) {
+				if ci.Common().StaticCallee() == initM && initCall == nil {
+					initCall = ci
+				}
+			}
+			if initCall != nil {
+				early := ""
+				for _, m := range muts {
+					if m.ref.level == "other" {
+						continue
+					}
+					if m.in.Parent() == f && !core.InstrDominates(initCall, m.in) {
+						early = p.InstrPos(m.in)
+					}
+				}
+				c.R.Add("MIRROR-ADD", core.FuncName(f)+"|tables-made-before-written", name, p.InstrPos(initCall), early == "",
+					"the tables are made (init) before the operation writes any of them", ternary(early == "", "init first", "a table is written at "+early+" before init ran"))
+			}
+		}
 		isMethod := f.Signature.Recv() != nil && core.NamedOf(f.Signature.Recv().Type()) == "graph.Graph"
 		short := f.Name()
 		var recv ssa.Value
